@@ -23,7 +23,7 @@ PROPS = {
         "claim": "Decides, on every CFG path of every function body of the crate (any history, by induction over calls), the structural rules GC1, GC2, GC3, GC4, GC5, GC7a, GC9; together with the hand argument of DESIGN §5.0 (rules ⇒ invariants I1–I3 ⇒ statement) this is the whole statement under the property's preconditions. Static, no execution; no bound on history length, ids, N or capacity.",
         "note": "Trusted: rustc front end + engine's reading of MIR; container crates at their locked versions as audited (DESIGN §3); the hand argument rules ⇒ invariants ⇒ statement. merge() on non-tree input is exempt (GC1 scoped exemption).",
         "technique": 'MIR who-may-write + guard/dominance rules (custom rustc driver)',
-        "rules": [("GC1", G.gc1), ("GC2", G.gc2), ("GC3", G.gc3), ("GC4", G.gc4), ("GC5", G.gc5),
+        "rules": [("GC0", G.gc0), ("GC1", G.gc1), ("GC2", G.gc2), ("GC3", G.gc3), ("GC4", G.gc4), ("GC5", G.gc5),
                   ("GC7a", functools.partial(G.gc7, part="a")), ("GC9", G.gc9)],
         "explanation": "GC safety via invariants I1–I3: removal sites only in data() (GC1), guarded by first read ∧ grouped ∧ "
                        "counter==0 over the reader's member list (GC2), read arms (GC3), counter == number of unread data (GC4, needed for "
